@@ -52,6 +52,7 @@ type shadow struct {
 	acked    uint64 // highest index acknowledged with success on the wire
 	reported uint64 // highest term reported on the wire
 	truncFloor uint64
+	leader     uint64 // leader it believed in at the last observation
 	xferPrev, xferNow bool // transfer in progress at the previous / this observation
 }
 
@@ -113,6 +114,9 @@ func newLedgers(c *cluster) *ledgers {
 func (l *ledgers) onStart(n *simNode) {
 	c := l.c
 	r := n.r
+	if c.blackbox {
+		return
+	}
 	l.notePersisted(n.id, n.dir)
 	if n.inc > 1 {
 		c.stats.class("restarted")
@@ -422,6 +426,7 @@ func (c *cluster) observeNode(n *simNode) {
 		sh.commit = r.commitIndex
 	}
 	sh.term, sh.state, sh.snap = term, state, snapIdx
+	sh.leader = r.leader
 	if state == Leader && r.configs.IsCommitted() && !r.configs.Latest.isVoter(n.id) {
 		c.fail("nonvoter-authority", "nonvoter-still-leader", "node %d is still leader of term %d although the committed configuration %v does not list it as voter", n.id, term, r.configs.Latest)
 	}
